@@ -20,12 +20,14 @@ MODELLED_NOT_VERIFIED = [
     "C05: the Lean model (Model/C05.lean on C01/C04) is hand-written from SplitDistribution.count_splits_on_tree / calc_freqs / consensus_tree, "
     "TreeArray.calculate_*_of_split_supports, summarize_splits_on_tree (support) and collapse_edges_with_less_than_minimum_support; tied per "
     "sample (frequencies, consensus tree with child order, scores, maximiser when unique, per-split count/mean/median/min/max/variance as "
-    "exact rationals, supports written on a target, collapsed tree)",
+    "exact rationals, supports written on a target, collapsed tree, and — op `hist` — the answers of frequency and summary queries "
+    "interleaved with additions on ONE distribution, through the modelled cache tables)",
     "C05: math.log in the product score (the model multiplies supports; compared through exp within 1e-9), binary64 (weights, lengths and "
     "thresholds are dyadic so exact and float verdicts coincide; means and variances are compared within 1e-9 / 1e-6), HPD / 5-95 quantiles "
     "and annotation objects (not in the statement); node ages are checked by the oracle only (not modelled)",
-    "C05: the hypotheses of the majority-rule theorems are derived (treeRecOf_rooted_hts) for the driver's records of well-formed ROOTED trees; "
-    "the not-rooted majority-rule case has the any-threshold theorems only (nothing below threshold, compatible, greedy by frequency)",
+    "C05: the hypotheses of the majority-rule theorems are derived for the driver's records of well-formed ROOTED trees (treeRecOf_rooted_hts) "
+    "and of well-formed not-rooted trees whose seed has >= 3 children as drawn (treeRecOf_unrooted_hts_partial); not-rooted trees whose "
+    "seed is opened up or suppressed by the encoding are covered by the correspondence only",
 ]
 EXPLANATION = ("Theorems (all about the definitions the driver runs): frequency = weighted count / normaliser, 0 for absent splits; "
                "majority_consensus_reaches/_exact: rooted samples, threshold > 1/2 -> the consensus clades are exactly the star's plus the "
@@ -36,7 +38,11 @@ EXPLANATION = ("Theorems (all about the definitions the driver runs): frequency 
                "rooted); treeRecOf_rooted_clades/_nodup/_hts (the driver's record of a well-formed rooted tree lists, once each, the clades of a "
                "well-formed hierarchy: the hypotheses of the majority theorems hold for driver-built records); "
                "collapse_removes_exactly (the internal nodes left are exactly those with frequency >= threshold, root-to-tip kept); "
-               "stats_spec (mean, median/min/max off a sorted permutation, sample variance); argmaxFirst_spec.")
+               "stats_spec (mean, median/min/max off a sorted permutation, sample variance); argmaxFirst_spec; "
+               "majority_consensus_unrooted_reaches/_exact (not-rooted records: normalised splits, prep's complement handling); "
+               "freq_never_stale (over every add/query history the cached tables answer as if recomputed from all trees counted so far); "
+               "scored_spec, score_spec, mcc_index_spec (scores are the sum / product of the scored splits' frequencies and the reported "
+               "index is the first maximiser); parseTree_lenWF + collapse_keeps_root_tip_parsed (no side condition on parsed input).")
 
 THRESHOLDS = [None, 0.0, 0.25, 0.5, "GTH", 0.625, 0.75, 1.0]
 ROOTED = {"R": True, "U": False, "N": None}
@@ -557,6 +563,35 @@ def flush(ctx, pending):
         if o.startswith("bad-"):
             ctx.disagree(line.split(" ", 1)[0], case, "ok", o)
             continue
+        if "hist" in impl:
+            toks = o.split()
+            want = impl["hist"]
+            bad = None
+            if len(toks) != len(want):
+                bad = "%d answers from the model, %d from the implementation" % (len(toks), len(want))
+            else:
+                for tok, w in zip(toks, want):
+                    if w is None:
+                        continue
+                    kind, sp, v = w
+                    if kind == "F":
+                        if not close(v, float(Fraction(tok)), 1e-12):
+                            bad = "frequency of %d in the history: impl %r model %s" % (sp, v, tok)
+                    elif (tok == "-") != (v is None):
+                        bad = "summary of %d in the history: impl %r model %s" % (sp, v, tok)
+                    elif v is not None:
+                        n, mean, med, lo, hi, var = tok.split(",")
+                        rg = v.get("range")
+                        ok = close(v.get("mean"), float(Fraction(mean))) and Fraction(v.get("median")) == Fraction(med) and \
+                            Fraction(rg[0]) == Fraction(lo) and Fraction(rg[1]) == Fraction(hi) and \
+                            (var == "inf" or close(v.get("sd") ** 2, float(Fraction(var)), 1e-6))
+                        if not ok:
+                            bad = "summary of %d in the history: impl %r model %s" % (sp, {k: v.get(k) for k in ("mean", "median", "range", "sd")}, tok)
+                    if bad:
+                        break
+            if bad:
+                ctx.disagree("hist", case, bad, o[:300])
+            continue
         if "annot" in impl:
             model = {}
             for tok in o.split():
@@ -726,19 +761,48 @@ def gen_incremental(ctx, dendropy):
     return dict(sample_case(tns, trees, use_w, None, False), op="incremental", cuts=cuts, script=script)
 
 
-def run_incremental(ctx, dendropy, case):
+def run_incremental(ctx, dendropy, case, pending=None):
     tns, trees = trees_of_case(dendropy, case)
     use_w, cuts, script = case["use_weights"], case["cuts"], case["script"]
     batches = [trees[a:b] for a, b in zip([0] + cuts, cuts + [len(trees)])]
     ta = dendropy.TreeArray(taxon_namespace=tns, use_tree_weights=use_w)
     ctx.case(["incremental", stable_hash(case)], True, kind="incremental")
     seen = []
+    events, answers = [], []      # the same history for the model of the caches (driver op `hist`): what was asked, what the library said
+
+    def ask_freq(s, keep=True):
+        v = ta.split_distribution[s]
+        events.append("F %d" % s)
+        answers.append(("F", s, v) if keep else None)
+        return v
+
+    def ask_summ(s, keep=True):
+        v = ta.split_distribution.split_edge_length_summaries.get(s)
+        events.append("S %d" % s)
+        answers.append(("S", s, v) if keep else None)
+        return v
+
+    def ask_ages():
+        ta.split_distribution.split_node_age_summaries      # read only: the table shares its staleness counter with the length summaries
+        events.append("G")                                  # no answer in the model either
+    ask_summ.ages = ask_ages
+    try:
+        _run_incremental(ctx, dendropy, case, tns, trees, use_w, batches, script, ta, seen, events, ask_freq, ask_summ)
+    finally:
+        if pending is not None and events:
+            pending.append(("hist %d %d %s" % (use_w, len(events), " ".join(events)), case, {"hist": answers}))
+
+
+def _run_incremental(ctx, dendropy, case, tns, trees, use_w, batches, script, ta, seen, events, ask_freq, ask_summ):
+    rec_of = {id(t): r for t, r in zip(trees, case["trees"])}
     for batch, queries in zip(batches, script):
         for t in batch:
             c = c04.clone(dendropy, t)
             c.weight = t.weight
             ta.add_tree(c)
             seen.append(t)
+            r = rec_of[id(t)]
+            events.append("A %s %s %s" % (r["rooted"], "N" if r["weight"] is None else r["weight"], " ".join(r["tree"])))
         fr, _ = oracle_freqs(seen, use_w)
         per_split = {}
         for t in seen:
@@ -746,21 +810,34 @@ def run_incremental(ctx, dendropy, case):
                 per_split.setdefault(s, []).append(l)
         for q in queries:
             q, pick = (q, 0) if isinstance(q, str) else q      # older recorded cases carry the query name only
+            some = sorted(fr)[pick % len(fr)]
             if q == "consensus":
                 ta.consensus_tree(min_freq=0.5)
+                ask_summ(some, keep=False)      # the call reads the summary table, then the frequency table
+                ask_freq(some)
             elif q == "freq":
-                d = ta.split_distribution
-                for s, f in fr.items():
-                    if not close(d[s], float(f), 1e-12):
-                        ctx.fail("stale", "after %d trees split %d has frequency %r, expected %s" % (len(seen), s, d[s], f), case)
+                for s, f in sorted(fr.items()):
+                    v = ask_freq(s)
+                    if not close(v, float(f), 1e-12):
+                        ctx.fail("stale", "after %d trees split %d has frequency %r, expected %s" % (len(seen), s, v, f), case)
                         return
+                ask_freq(max(fr) + 2)
             elif q == "scores":
                 ta.calculate_sum_of_split_supports()
+                ask_freq(some)
             elif q == "mcc":
                 ta.maximum_product_of_split_support_tree()
+                ask_summ(some)
+                ask_freq(some)
             else:
                 tgt = c04.clone(dendropy, seen[pick % len(seen)])
+                # the summary-table reads the call is about to make (age summaries, then length summaries), visible to the model; frequencies after it
+                tsplits = sorted({s for _nd, s in node_splits(tgt)[0]})
+                ask_summ.ages()
+                for s in tsplits:
+                    ask_summ(s)
                 ta.summarize_splits_on_tree(tgt)
+                ask_freq(some)
                 for nd, s in node_splits(tgt)[0]:
                     vals = per_split.get(s, [])
                     if not vals:
@@ -910,7 +987,8 @@ def run_more(ctx, dendropy, case):
 
 
 # ------------------------------------------------------------------ thresholds equal to attainable frequencies (oracle only)
-ATTAIN_COUNTS = [3, 5, 6, 6, 7, 7, 9, 10, 11, 12, 12, 13, 14, 15, 49, 98, 103, 107]
+ATTAIN_COUNTS = [3, 5, 6, 6, 7, 7, 9, 10, 11, 12, 12, 13, 14, 15]
+ATTAIN_LARGE = [49, 98, 103, 107]      # unanimous-split counts k for which k * (1/k) != 1 in binary64; costly, drawn rarely in the quick tier
 
 
 def gen_attain(ctx, dendropy):
@@ -918,13 +996,14 @@ def gen_attain(ctx, dendropy):
     of the sample's splits (or the next attainable value above it, or n/n), handed to the library as float(k)/n.  With unit
     weights the statement's comparison `count/n >= k/n` is the integer comparison count >= k, which is what the oracle does."""
     rng = ctx.rng
-    n = rng.randint(4, 7)
+    large = rng.random() < ctx.pick(0.04, 0.2)
+    k = rng.choice(ATTAIN_LARGE if large else ATTAIN_COUNTS)
+    n = rng.randint(4, 5 if large else 7)
     hole = rng.random() < 0.15
     total = n + (1 if hole else 0)
     tns = tu.make_namespace(dendropy, 0, labels=["t%d" % i for i in range(total)], holes=[rng.randrange(total)] if hole else [])
     taxa = list(tns)
     rooted = rng.choice([True, False, None])
-    k = rng.choice(ATTAIN_COUNTS)
     base = c04.gen_on(dendropy, rng, tns, taxa, rooted, 0.0)
     alt = c04.perturb(dendropy, rng, base)
     trees = []
@@ -986,7 +1065,7 @@ def run_case(ctx, dendropy, case, pending, pending_c):
         elif op == "collapse":
             run_collapse(ctx, dendropy, case, pending_c)
         elif op == "incremental":
-            run_incremental(ctx, dendropy, case)
+            run_incremental(ctx, dendropy, case, pending)
         elif op == "more":
             run_more(ctx, dendropy, case)
         else:
@@ -1000,7 +1079,7 @@ def run_case(ctx, dendropy, case, pending, pending_c):
 def run(ctx):
     dendropy = __import__("dendropy")
     rng = ctx.rng
-    ctx.set_budget(45, 600)
+    ctx.set_budget(40, 600)
     pending, pending_c = [], []
     for _ in range(ctx.pick(1500, 30000)):
         if ctx.out_of_time():
